@@ -15,7 +15,17 @@ class ImportBoom(Exception):
     pass
 
 
+class ModeBoom(Exception):
+    """raised by a scripted callback of a generated mode"""
+
+
+FAULT = {}  # {"event": "on_iteration", "n": k}: the k-th such callback (of any mode) raises after it was logged
+_COUNT = {}
+
+
 def reset():
+    FAULT.clear()
+    _COUNT.clear()
     del LOG[:]
     del CONSTRUCTED[:]
     del IMPORTED[:]
@@ -29,3 +39,7 @@ def constructed(cid, args, kwargs, fail):
 
 def hit(cid, event, extra=None):
     LOG.append((cid, event, wpilib.RobotController.getFPGATime(), extra))
+    if FAULT and FAULT.get("event") == event:
+        n = _COUNT[event] = _COUNT.get(event, 0) + 1
+        if n == FAULT["n"]:
+            raise ModeBoom(f"{cid}.{event} (call {n})")
